@@ -184,6 +184,18 @@ export function genProg(rng) {
       names.push({ name, params: ["T"] });
     }
   }
+  // two declarations with the same body under different names (the code generator hoists equal constants: both names
+  // then denote the SAME runtime object), used side by side in a third one
+  if (decls.length && rng.chance(1, 8)) {
+    const d = rng.pick(decls.filter((x) => head(x) === "alias" && x[2].length === 0));
+    if (d) {
+      const twin = "Tw" + decls.length, both = "Bo" + decls.length;
+      decls.push([A("alias"), twin, [], clone(d[3])]);
+      decls.push([A("alias"), both, [], [A("obj"), [["a", A("false"), [A("ref"), d[1]]], ["b", A("false"), [A("ref"), twin]]], A("none")]]);
+      names.push({ name: twin, params: [] }, { name: both, params: [] });
+      objNames.push(both);
+    }
+  }
   const sc = { names, objNames, params: [] };
   const ne = 1 + rng.below(2);
   const exps = Array.from({ length: ne }, (_, i) => ["E" + i, genTy(rng, 1 + rng.below(3), sc)]);
@@ -452,7 +464,45 @@ function valuesProject(rng) {
   }
   return [["entry.ts", entry], ["vals.ts", lib]];
 }
+// shapes behind the repaired D86–D89: enums with string-named members, user types called like a built-in used as type
+// arguments next to the built-in, generics that re-instantiate themselves with larger arguments, circles of re-exports
+function oddProject(rng) {
+  switch (rng.below(5)) {
+    case 0: {
+      const ms = ['"a-b" = "x"', 'B = "y"', '"c d" = 1', "D", 'E = "e"'].filter(() => rng.chance(2, 3));
+      if (!ms.length) ms.push('"k-1" = "v"');
+      const use = rng.pick(["E", "E.B", "E.D", "E.E", 'E["a-b"]', "`${E}`", "keyof typeof E", "(typeof E)[keyof typeof E]"]);
+      return [["entry.ts", `${rng.chance(1, 2) ? "export " : ""}enum E { ${ms.join(", ")} }\nparse.buildParsers<{ E0: ${use} }>();\n`]];
+    }
+    case 1: {
+      const nm = rng.pick(["Function", "Date", "Array", "Object", "Uint8Array", "Record", "Map", "Set", "String"]);
+      const args = [nm, rng.pick(["() => void", "Date", "string[]", "object", "Uint8Array", "Map<string, number>", "Set<string>", "string"])];
+      return [["entry.ts", `type ${nm} = ${rng.pick(["string", "{ a: number }", "number[]"])};\ntype Box<T> = { v: T };\nparse.buildParsers<{ E0: Box<${args[0]}>, E1: Box<${args[1]}>, E2: ${nm} }>();\n`]];
+    }
+    case 2: {
+      const grow = rng.pick(["T[]", "[T]", "{ a: T }", "T | null", "Array<T>"]);   // not `[T, T]`: recorded finding D88b
+      const body = rng.pick([`{ x: A<${grow}> | null }`, `{ x?: A<${grow}> }`, `A<${grow}>[]`, `[T, ...A<${grow}>[]]`]);
+      return [["entry.ts", `type A<T> = ${body};\nparse.buildParsers<{ E0: A<${rng.pick(["string", "number", "{ k: 1 }"])}> }>();\n`]];
+    }
+    case 3: {
+      const n = 2 + rng.below(3);
+      const files = [["entry.ts", `import { X } from "./m0";\nparse.buildParsers<{ E0: ${rng.pick(["X", "typeof X", "X[]"])} }>();\n`]];
+      for (let i = 0; i < n; i++) {
+        const next = `./m${(i + 1) % n}`;
+        files.push([`m${i}.ts`, rng.pick([`export { X } from "${next}";\n`, `export * from "${next}";\n`, `import { X } from "${next}";\nexport { X };\n`, `export type { X } from "${next}";\n`])]);
+      }
+      if (rng.chance(1, 3)) files[files.length - 1][1] = rng.pick(["export type X = string;\n", "export const X = 1;\n"]);
+      return files;
+    }
+    default: {
+      const chain = 30 + rng.below(120);
+      const decls = Array.from({ length: chain }, (_, i) => `type N${i} = { v: ${i + 1 < chain ? "N" + (i + 1) : "string"} };`).join("\n");
+      return [["entry.ts", decls + "\nparse.buildParsers<{ E0: N0 }>();\n"]];
+    }
+  }
+}
 export function genTotal(rng, params) {
+  if (rng.chance(1, 12)) return [A("total"), A(String(counter++)), A("none"), oddProject(rng), []];
   let p = genProg(rng);
   if (rng.chance(1, 12)) return [A("total"), A(String(counter++)), A("none"), valuesProject(rng), []];
   if (rng.chance(1, 12)) return [A("total"), A(String(counter++)), A("none"), defaultExprProject(rng), []];
